@@ -45,8 +45,9 @@ pub struct FaultPlan {
     pub second: Option<(usize, FaultMode)>,
     /// repeat the `count` failing calls every `period` calls (0 = no repetition)
     pub period: usize,
-    /// only calls at this site ("data-write", "journal-write", "metadata-write", "fsync") are
-    /// counted and failed; None = every write and fsync
+    /// only calls at this site ("data-write", "journal-write", "metadata-write", "fsync", or the
+    /// finer "record-write" / "marker-write" inside the data area) are counted and failed;
+    /// None = every write and fsync
     pub site: Option<&'static str>,
 }
 
@@ -126,7 +127,9 @@ impl IoConsumer for Consumer {
                 d.io_calls += 1;
                 let mut decision = IoDecision::Proceed;
                 let site_filter = d.plan.as_ref().and_then(|p| p.site);
-                let site_matches = site_filter.is_none_or(|s| s == site_name(ev.kind, ev.offset));
+                // finer split of the data area: retirement-marker writes vs record writes
+                let fine = if site_name(ev.kind, ev.offset) == "data-write" { if ev.data.starts_with(b"\0DELETED") { "marker-write" } else { "record-write" } } else { "" };
+                let site_matches = site_filter.is_none_or(|s| s == site_name(ev.kind, ev.offset) || s == fine);
                 if site_filter.is_some() && site_matches {
                     idx = d.site_calls;
                     d.site_calls += 1;
